@@ -1,1 +1,538 @@
-import BigtreeModel.Basic
+import BigtreeModel.Modify
+import BigtreeProofs.Lemmas.ModifyFold
+import BigtreeProofs.Lemmas.ModifyEdit
+/-!
+# C08 — shift / copy / replace perform exactly the documented edit and nothing else
+
+Theorems about the model `BigtreeModel/Modify.lean` (tied to `/repo` by `harness/props/C08.py`).
+-/
+open Modify
+
+namespace C08
+
+/-- configuration with `/` for all three separators (used by the examples) -/
+def cfgOf (copy sk ov mc ml dc fp : Bool) : Cfg :=
+  { sep := ['/'], fsep := ['/'], tsep := ['/'], copy := copy, skippable := sk, overriding := ov,
+    mergeChildren := mc, mergeLeaves := ml, deleteChildren := dc, withFullPath := fp }
+
+/-! ## one call with several pairs ≡ the same single-pair calls in sequence -/
+
+/-- The up-front argument validation of `copy_or_shift_logic` looks at *all* pairs before the first
+one is processed, so the statement is made for pair lists that pass it (`valid`); see
+`pairs_fold_ok` for the unconditional form on the success part. -/
+theorem pairs_fold (cfg : Cfg) (st : St) (p : Str × Option Str) (ps : List (Str × Option Str))
+    (hv : valid cfg st (p :: ps) = true) :
+    copyOrShift cfg st (p :: ps)
+      = (copyOrShift cfg st [p]).bind (fun st' => copyOrShift cfg st' ps) := by
+  rw [valid_cons] at hv
+  simp only [Bool.and_eq_true] at hv
+  obtain ⟨hv1, hv2⟩ := hv
+  simp only [copyOrShift, valid_cons cfg st p ps, hv1, hv2, Bool.and_self, if_true, List.map_cons,
+    List.map_nil, loop]
+  cases hs : step cfg st (norm cfg p) with
+  | error e => simp [Except.bind]
+  | ok st' =>
+    obtain ⟨h1, _⟩ := step_name hs
+    have h2 := step_tree_name hs
+    simp [Except.bind, valid_congr h1 h2, hv2]
+
+example :
+    let cfg : Cfg := cfgOf false false false false false false true
+    let t : Tree := .node 0 ['r'] [] [.node 1 ['a'] [] [.node 2 ['x'] [] []], .node 3 ['b'] [] []]
+    let ps : List (Str × Option Str) :=
+      [(['r','/','a','/','x'], some ['r','/','b','/','x']), (['r','/','a'], some ['r','/','b','/','a'])]
+    valid cfg ⟨none, t, 4⟩ ps = true ∧
+    (copyOrShift cfg ⟨none, t, 4⟩ ps).toOption =
+      some ⟨none, .node 0 ['r'] [] [.node 3 ['b'] [] [.node 2 ['x'] [] [], .node 1 ['a'] [] []]], 4⟩ := by
+  decide +kernel
+
+/-- Unconditional form: the successful outcomes of one call and of the sequential calls agree
+(an invalid list makes both fail, possibly with different exception classes). -/
+theorem pairs_fold_ok (cfg : Cfg) (st : St) (p : Str × Option Str) (ps : List (Str × Option Str)) :
+    (copyOrShift cfg st (p :: ps)).toOption
+      = ((copyOrShift cfg st [p]).bind (fun st' => copyOrShift cfg st' ps)).toOption := by
+  cases hv : valid cfg st (p :: ps) with
+  | true => rw [pairs_fold cfg st p ps hv]
+  | false =>
+    have hl : copyOrShift cfg st (p :: ps) = .error .value := by simp [copyOrShift, hv]
+    rw [hl]
+    rw [valid_cons] at hv
+    cases hv1 : valid cfg st [p] with
+    | false => simp [copyOrShift, hv1, Except.bind, Except.toOption]
+    | true =>
+      rw [hv1] at hv
+      simp only [Bool.true_and] at hv
+      simp only [copyOrShift, hv1, if_true, List.map_cons, List.map_nil, loop]
+      cases hs : step cfg st (norm cfg p) with
+      | error e => simp [Except.bind, Except.toOption]
+      | ok st' =>
+        obtain ⟨h1, _⟩ := step_name hs
+        have h2 := step_tree_name hs
+        simp [Except.bind, Except.toOption, valid_congr h1 h2, hv]
+
+/-- A bare equality of outcomes (exception classes included) does not hold: with a missing
+from-path first and a name mismatch second, one call raises `ValueError`, the sequential calls
+`NotFoundError`. -/
+theorem pairs_fold_needs_valid :
+    ∃ (cfg : Cfg) (st : St) (p : Str × Option Str) (ps : List (Str × Option Str)),
+      (copyOrShift cfg st (p :: ps)) = .error .value ∧
+      ((copyOrShift cfg st [p]).bind (fun st' => copyOrShift cfg st' ps)) = .error .notFound := by
+  refine ⟨cfgOf false false false false false false true, ⟨none, .node 0 ['r'] [] [.node 1 ['a'] [] []], 2⟩,
+      (['r','/','z'], some ['r','/','a','/','z']), [(['r','/','a'], some ['r','/','b'])], ?_, ?_⟩
+  · decide +kernel
+  · decide +kernel
+
+/-- The loop as it was before `fix:` D4 (the `merge_children` flag cleared for the rest of the
+call) violates the fold law: overriding + merge_children, first destination exists. -/
+theorem prefix_loop_not_fold :
+    ∃ (cfg : Cfg) (st : St) (p q : Str × Option Str),
+      valid cfg st [p, q] = true ∧
+      (copyOrShiftPre cfg st [p, q]).toOption
+        ≠ ((copyOrShiftPre cfg st [p]).bind (fun st' => copyOrShiftPre cfg st' [q])).toOption := by
+  refine ⟨cfgOf false false true true false false true,
+    ⟨none, .node 0 ['r'] [] [.node 1 ['a'] [] [.node 2 ['x'] [] []],
+                              .node 3 ['b'] [] [.node 4 ['a'] [] [.node 5 ['y'] [] []]],
+                              .node 6 ['c'] [] [.node 7 ['a'] [] [.node 8 ['z'] [] []]]], 9⟩,
+    (['r','/','b','/','a'], some ['r','/','a']),
+    (['r','/','c','/','a'], some ['r','/','n','/','a']), ?_, ?_⟩
+  · decide +kernel
+  · decide +kernel
+
+
+/-! ## the hypotheses of the single-pair theorems -/
+
+/-- One (from, to) pair given by printed full paths `sep + sep.join(names)`, in a tree whose
+sibling names are unique; all three separators are the character `c`; `with_full_path=True`;
+no merge flag, no `delete_children`. `fpar ++ [l]` / `tpar ++ [l]` are the from- and to-address
+below the root (same last name `l`, as `copy_or_shift_logic` requires); `F` is the from-node;
+`k` is the fresh-id counter. -/
+structure PairHyp (cfg : Cfg) (c : Char) (t : Tree) (k : Nat) (fpar tpar : List Str) (l : Str)
+    (F : Tree) : Prop where
+  plain : cfg.Plain c
+  mc : cfg.mergeChildren = false
+  ml : cfg.mergeLeaves = false
+  dc : cfg.deleteChildren = false
+  su : SibUnique t
+  fresh : ∀ e ∈ flat t, e.2.1 < k
+  gf : GoodNames c (t.name :: fpar ++ [l])
+  gt : GoodNames c (t.name :: tpar ++ [l])
+  found : getRel (fpar ++ [l]) t = some F
+  /-- the destination does not exist yet (so `overriding` plays no role) -/
+  missing : getRel (tpar ++ [l]) t = none
+  /-- DESIGN §5: the destination is not inside the subtree that is moved -/
+  outside : (fpar ++ [l]).isPrefixOf tpar = false
+
+/-- the call `shift_nodes / copy_nodes (tree, [from], [to])` of the single-pair theorems -/
+def call1 (cfg : Cfg) (c : Char) (t : Tree) (k : Nat) (fp tp : List Str) : Except Err St :=
+  copyOrShift cfg (st0 t k) [(pathStr c t.name fp, some (pathStr c t.name tp))]
+
+/-! ## plain shift -/
+
+/-- the call succeeds -/
+theorem shift_ok {cfg c t k fpar tpar l F} (h : PairHyp cfg c t k fpar tpar l F)
+    (hcp : cfg.copy = false) :
+    ∃ st', call1 cfg c t k (fpar ++ [l]) (tpar ++ [l]) = .ok st' := by
+  obtain ⟨t', k', hcall, _⟩ := shift_core h.plain hcp h.mc h.ml h.dc t k fpar tpar l F h.su h.fresh
+    h.gf h.gt h.found h.missing h.outside
+  exact ⟨_, hcall⟩
+
+/-- `paths' = (paths \ under from) ∪ rebase from to (under from) ∪ prefixes to` -/
+theorem shift_paths {cfg c t k fpar tpar l F} (h : PairHyp cfg c t k fpar tpar l F)
+    (hcp : cfg.copy = false) {st' : St}
+    (hr : call1 cfg c t k (fpar ++ [l]) (tpar ++ [l]) = .ok st') (q : List Str) :
+    q ∈ paths st'.dst ↔
+      (q ∈ paths t ∧ ¬ (fpar ++ [l]) <+: q) ∨
+      (∃ r, fpar ++ [l] ++ r ∈ paths t ∧ q = tpar ++ [l] ++ r) ∨
+      q <+: tpar ++ [l] := by
+  obtain ⟨t', k', hcall, _, hsu', hmoved, hframe, hmid, hpre⟩ :=
+    shift_core h.plain hcp h.mc h.ml h.dc t k fpar tpar l F h.su h.fresh
+      h.gf h.gt h.found h.missing h.outside
+  have hst : st' = st0 t' k' := by
+    unfold call1 at hr; rw [hcall] at hr; injection hr with hr; exact hr.symm
+  subst hst
+  show q ∈ paths t' ↔ _
+  constructor
+  · intro hq
+    obtain ⟨e, he, rfl⟩ := List.mem_map.1 hq
+    cases hue : under (tpar ++ [l]) e with
+    | true =>
+      right; left
+      have : e ∈ (flat t').filter (under (tpar ++ [l])) := List.mem_filter.2 ⟨he, hue⟩
+      rw [hmoved] at this
+      obtain ⟨e0, he0, rfl⟩ := List.mem_map.1 this
+      exact ⟨e0.1, (mem_paths_sub h.found h.su).1 (List.mem_map.2 ⟨e0, he0, rfl⟩), rfl⟩
+    | false =>
+      by_cases hlt : e.2.1 < k
+      · left
+        have : e ∈ (flat t').filter (fun e => decide (e.2.1 < k) && !under (tpar ++ [l]) e) :=
+          List.mem_filter.2 ⟨he, by simp [hlt, hue]⟩
+        rw [hframe] at this
+        obtain ⟨h1, h2⟩ := List.mem_filter.1 this
+        refine ⟨List.mem_map.2 ⟨e, h1, rfl⟩, ?_⟩
+        intro hp
+        have : under (fpar ++ [l]) e = true := List.isPrefixOf_iff_prefix.2 hp
+        simp [this] at h2
+      · right; right
+        have := (hmid e he hlt).1
+        rw [List.isPrefixOf_iff_prefix] at this
+        exact this.trans (List.prefix_append _ _)
+  · rintro (⟨hq, hnp⟩ | ⟨r, hr', rfl⟩ | hq)
+    · obtain ⟨e, he, rfl⟩ := List.mem_map.1 hq
+      have : e ∈ (flat t).filter (fun e => !under (fpar ++ [l]) e) := by
+        refine List.mem_filter.2 ⟨he, ?_⟩
+        cases hu : under (fpar ++ [l]) e with
+        | false => rfl
+        | true => exact absurd (List.isPrefixOf_iff_prefix.1 hu) hnp
+      rw [← hframe] at this
+      exact List.mem_map.2 ⟨e, (List.mem_filter.1 this).1, rfl⟩
+    · have hr2 := (mem_paths_sub h.found h.su).2 hr'
+      obtain ⟨e0, he0, rfl⟩ := List.mem_map.1 hr2
+      have : rebase (tpar ++ [l]) e0 ∈ (flat t').filter (under (tpar ++ [l])) := by
+        rw [hmoved]; exact List.mem_map.2 ⟨e0, he0, rfl⟩
+      exact List.mem_map.2 ⟨_, (List.mem_filter.1 this).1, rfl⟩
+    · by_cases hqe : q = tpar ++ [l]
+      · subst hqe
+        have hF0 : ([] : List Str) ∈ paths F := by rw [paths, flat_eq]; simp
+        obtain ⟨e0, he0, he0'⟩ := List.mem_map.1 hF0
+        have : rebase (tpar ++ [l]) e0 ∈ (flat t').filter (under (tpar ++ [l])) := by
+          rw [hmoved]; exact List.mem_map.2 ⟨e0, he0, rfl⟩
+        exact List.mem_map.2 ⟨_, (List.mem_filter.1 this).1, by simp [rebase, he0']⟩
+      · apply hpre
+        rw [List.isPrefixOf_iff_prefix]
+        obtain ⟨s, hs⟩ := hq
+        cases hsl : s.reverse with
+        | nil => simp at hsl; subst hsl; simp at hs; exact absurd hs hqe
+        | cons x xs =>
+          have : s = xs.reverse ++ [x] := by rw [← List.reverse_reverse s, hsl]; simp
+          subst this
+          rw [← List.append_assoc] at hs
+          have := List.append_inj_left' hs rfl
+          exact ⟨xs.reverse, this⟩
+
+/-- moved nodes keep their ids — and their attributes, relative paths and order: the entries
+below the destination are exactly the entries of the from-node, re-rooted -/
+theorem shift_keeps_ids {cfg c t k fpar tpar l F} (h : PairHyp cfg c t k fpar tpar l F)
+    (hcp : cfg.copy = false) {st' : St}
+    (hr : call1 cfg c t k (fpar ++ [l]) (tpar ++ [l]) = .ok st') :
+    (flat st'.dst).filter (under (tpar ++ [l])) = (flat F).map (rebase (tpar ++ [l])) := by
+  obtain ⟨t', k', hcall, _, _, hmoved, _⟩ :=
+    shift_core h.plain hcp h.mc h.ml h.dc t k fpar tpar l F h.su h.fresh
+      h.gf h.gt h.found h.missing h.outside
+  have hst : st' = st0 t' k' := by
+    unfold call1 at hr; rw [hcall] at hr; injection hr with hr; exact hr.symm
+  subst hst
+  exact hmoved
+
+/-- frame: the objects that existed before and are not below the destination are exactly the
+old entries outside the from-subtree — same ids, paths, attributes, same (pre-)order, hence the
+same sibling order; whatever else is in the result is a freshly created attribute-less
+intermediate node on the destination's parent path. -/
+theorem shift_frame {cfg c t k fpar tpar l F} (h : PairHyp cfg c t k fpar tpar l F)
+    (hcp : cfg.copy = false) {st' : St}
+    (hr : call1 cfg c t k (fpar ++ [l]) (tpar ++ [l]) = .ok st') :
+    (flat st'.dst).filter (fun e => decide (e.2.1 < k) && !under (tpar ++ [l]) e)
+        = (flat t).filter (fun e => !under (fpar ++ [l]) e) ∧
+    (∀ e ∈ flat st'.dst, ¬ e.2.1 < k → e.1 <+: tpar ∧ e.2.1 < st'.next ∧ e.2.2 = []) ∧
+    st'.src = none ∧ SibUnique st'.dst := by
+  obtain ⟨t', k', hcall, _, hsu', _, hframe, hmid, _⟩ :=
+    shift_core h.plain hcp h.mc h.ml h.dc t k fpar tpar l F h.su h.fresh
+      h.gf h.gt h.found h.missing h.outside
+  have hst : st' = st0 t' k' := by
+    unfold call1 at hr; rw [hcall] at hr; injection hr with hr; exact hr.symm
+  subst hst
+  refine ⟨hframe, fun e he hlt => ?_, rfl, hsu'⟩
+  obtain ⟨h1, h2, h3⟩ := hmid e he hlt
+  exact ⟨List.isPrefixOf_iff_prefix.1 h1, h2, h3⟩
+
+
+/-! non-vacuity: a concrete tree, a concrete pair meeting `PairHyp`, and what the call returns -/
+
+/-- `r(a(x, y), b)` with ids 0..4 and one attribute on `x` -/
+def exTree : Tree :=
+  .node 0 ['r'] [] [.node 1 ['a'] [] [.node 2 ['x'] [(['k'], .int 7)] [], .node 3 ['y'] [] []],
+                    .node 4 ['b'] [] []]
+
+/-- shift `/r/a` to `/r/b/n/a` (the intermediate node `n` does not exist) -/
+example : PairHyp (cfgOf false false false false false false true) '/' exTree 5 [] [['b'], ['n']] ['a']
+    (.node 1 ['a'] [] [.node 2 ['x'] [(['k'], .int 7)] [], .node 3 ['y'] [] []]) where
+  plain := ⟨rfl, rfl, rfl, rfl⟩
+  mc := rfl
+  ml := rfl
+  dc := rfl
+  su := by decide +kernel
+  fresh := by decide +kernel
+  gf := by decide +kernel
+  gt := by decide +kernel
+  found := by decide +kernel
+  missing := by decide +kernel
+  outside := by decide +kernel
+
+example : call1 (cfgOf false false false false false false true) '/' exTree 5 [['a']] [['b'], ['n'], ['a']]
+    = .ok (st0 (.node 0 ['r'] [] [.node 4 ['b'] [] [.node 5 ['n'] [] [.node 1 ['a'] [] [
+        .node 2 ['x'] [(['k'], .int 7)] [], .node 3 ['y'] [] []]]]]) 6) := by
+  decide +kernel
+
+/-! ## plain copy (same tree) -/
+
+theorem copy_ok {cfg c t k fpar tpar l F} (h : PairHyp cfg c t k fpar tpar l F)
+    (hcp : cfg.copy = true) :
+    ∃ st', call1 cfg c t k (fpar ++ [l]) (tpar ++ [l]) = .ok st' := by
+  obtain ⟨t', k', hcall, _⟩ := copy_core h.plain hcp h.mc h.ml h.dc none t k fpar tpar l F h.su h.su
+    h.fresh h.gf h.gt h.found h.missing (fun _ => h.outside)
+  exact ⟨_, hcall⟩
+
+/-- what `copy_core` gives for the same-tree call, with the result state named -/
+theorem copy_facts {cfg c t k fpar tpar l F} (h : PairHyp cfg c t k fpar tpar l F)
+    (hcp : cfg.copy = true) {st' : St}
+    (hr : call1 cfg c t k (fpar ++ [l]) (tpar ++ [l]) = .ok st') :
+    st'.src = none ∧ k ≤ st'.next ∧ SibUnique st'.dst ∧
+    shape ((flat st'.dst).filter (under (tpar ++ [l])))
+        = (shape (flat F)).map (fun x => (tpar ++ [l] ++ x.1, x.2)) ∧
+    (∀ e ∈ (flat st'.dst).filter (under (tpar ++ [l])), k ≤ e.2.1 ∧ e.2.1 < st'.next) ∧
+    (flat st'.dst).filter (fun e => decide (e.2.1 < k)) = flat t ∧
+    (∀ e ∈ flat st'.dst, ¬ e.2.1 < k → under (tpar ++ [l]) e = false →
+        e.1.isPrefixOf tpar = true ∧ e.2.1 < st'.next ∧ e.2.2 = []) ∧
+    (∀ q, q.isPrefixOf tpar = true → q ∈ paths st'.dst) := by
+  obtain ⟨t', k', hcall, h1, h2, h3, h4, h5, h6, h7⟩ :=
+    copy_core h.plain hcp h.mc h.ml h.dc none t k fpar tpar l F h.su h.su
+      h.fresh h.gf h.gt h.found h.missing (fun _ => h.outside)
+  have hst : st' = ⟨none, t', k'⟩ := by
+    unfold call1 at hr
+    simp only [Option.getD_none] at hcall
+    rw [show st0 t k = ⟨none, t, k⟩ from rfl, hcall] at hr
+    injection hr with hr; exact hr.symm
+  subst hst
+  exact ⟨rfl, h1, h2, h3, h4, h5, h6, h7⟩
+
+/-- `paths' = paths ∪ rebase from to (under from) ∪ prefixes to` -/
+theorem copy_paths {cfg c t k fpar tpar l F} (h : PairHyp cfg c t k fpar tpar l F)
+    (hcp : cfg.copy = true) {st' : St}
+    (hr : call1 cfg c t k (fpar ++ [l]) (tpar ++ [l]) = .ok st') (q : List Str) :
+    q ∈ paths st'.dst ↔
+      q ∈ paths t ∨ (∃ r, fpar ++ [l] ++ r ∈ paths t ∧ q = tpar ++ [l] ++ r) ∨ q <+: tpar ++ [l] := by
+  obtain ⟨_, _, _, hshape, _, hold, hmid, hpre⟩ := copy_facts h hcp hr
+  have hsh : ∀ r, (tpar ++ [l] ++ r ∈ paths st'.dst) ↔ r ∈ paths F := by
+    intro r
+    have key : ((flat st'.dst).filter (under (tpar ++ [l]))).map (·.1)
+        = (paths F).map (fun x => tpar ++ [l] ++ x) := by
+      have := congrArg (fun s : List (List Str × Attrs) => s.map (·.1)) hshape
+      simpa [shape, paths, Function.comp_def] using this
+    constructor
+    · intro hq
+      obtain ⟨e, he, he'⟩ := List.mem_map.1 hq
+      have : e.1 ∈ ((flat st'.dst).filter (under (tpar ++ [l]))).map (·.1) :=
+        List.mem_map.2 ⟨e, List.mem_filter.2 ⟨he, by simp [under, he', List.isPrefixOf_iff_prefix]⟩, rfl⟩
+      rw [key, he'] at this
+      obtain ⟨x, hx, hx'⟩ := List.mem_map.1 this
+      rwa [← List.append_cancel_left hx']
+    · intro hq
+      have : tpar ++ [l] ++ r ∈ (paths F).map (fun x => tpar ++ [l] ++ x) := List.mem_map.2 ⟨r, hq, rfl⟩
+      rw [← key] at this
+      obtain ⟨e, he, he'⟩ := List.mem_map.1 this
+      exact List.mem_map.2 ⟨e, (List.mem_filter.1 he).1, he'⟩
+  constructor
+  · intro hq
+    obtain ⟨e, he, rfl⟩ := List.mem_map.1 hq
+    cases hue : under (tpar ++ [l]) e with
+    | true =>
+      right; left
+      obtain ⟨r, hr'⟩ := isPrefixOf_iff.1 hue
+      have : tpar ++ [l] ++ r ∈ paths st'.dst := hr' ▸ hq
+      exact ⟨r, (mem_paths_sub h.found h.su).1 ((hsh r).1 this), hr'⟩
+    | false =>
+      by_cases hlt : e.2.1 < k
+      · left
+        have : e ∈ (flat st'.dst).filter (fun e => decide (e.2.1 < k)) :=
+          List.mem_filter.2 ⟨he, by simp [hlt]⟩
+        rw [hold] at this
+        exact List.mem_map.2 ⟨e, this, rfl⟩
+      · right; right
+        have := (hmid e he hlt hue).1
+        rw [List.isPrefixOf_iff_prefix] at this
+        exact this.trans (List.prefix_append _ _)
+  · rintro (hq | ⟨r, hr', rfl⟩ | hq)
+    · obtain ⟨e, he, rfl⟩ := List.mem_map.1 hq
+      rw [← hold] at he
+      exact List.mem_map.2 ⟨e, (List.mem_filter.1 he).1, rfl⟩
+    · exact (hsh r).2 ((mem_paths_sub h.found h.su).2 hr')
+    · by_cases hqe : q = tpar ++ [l]
+      · subst hqe
+        have hF0 : ([] : List Str) ∈ paths F := by rw [paths, flat_eq]; simp
+        simpa using (hsh []).2 hF0
+      · apply hpre
+        rw [List.isPrefixOf_iff_prefix]
+        obtain ⟨s, hs⟩ := hq
+        cases hsl : s.reverse with
+        | nil => simp at hsl; subst hsl; simp at hs; exact absurd hs hqe
+        | cons x xs =>
+          have : s = xs.reverse ++ [x] := by rw [← List.reverse_reverse s, hsl]; simp
+          subst this
+          rw [← List.append_assoc] at hs
+          exact ⟨xs.reverse, List.append_inj_left' hs rfl⟩
+
+/-- the copy consists of fresh objects (ids from the counter on) and has the origin's relative
+paths, attributes and order -/
+theorem copy_fresh_ids {cfg c t k fpar tpar l F} (h : PairHyp cfg c t k fpar tpar l F)
+    (hcp : cfg.copy = true) {st' : St}
+    (hr : call1 cfg c t k (fpar ++ [l]) (tpar ++ [l]) = .ok st') :
+    (∀ e ∈ (flat st'.dst).filter (under (tpar ++ [l])), k ≤ e.2.1 ∧ e.2.1 < st'.next ∧ e.2.1 ∉ ids t) ∧
+    shape ((flat st'.dst).filter (under (tpar ++ [l])))
+        = (shape (flat F)).map (fun x => (tpar ++ [l] ++ x.1, x.2)) := by
+  obtain ⟨_, _, _, hshape, hids, _, _, _⟩ := copy_facts h hcp hr
+  refine ⟨fun e he => ⟨(hids e he).1, (hids e he).2, ?_⟩, hshape⟩
+  intro hmem
+  obtain ⟨e', he', hid⟩ := List.mem_map.1 hmem
+  have := h.fresh e' he'
+  have := (hids e he).1
+  omega
+
+/-- origin untouched — in fact everything that existed is untouched: the old objects of the
+result are exactly the old entries (ids, paths, attributes, order), the origin subtree included -/
+theorem copy_origin_untouched {cfg c t k fpar tpar l F} (h : PairHyp cfg c t k fpar tpar l F)
+    (hcp : cfg.copy = true) {st' : St}
+    (hr : call1 cfg c t k (fpar ++ [l]) (tpar ++ [l]) = .ok st') :
+    (flat st'.dst).filter (fun e => decide (e.2.1 < k)) = flat t ∧
+    (flat st'.dst).filter (under (fpar ++ [l])) = (flat F).map (rebase (fpar ++ [l])) := by
+  obtain ⟨_, _, hsu', _, hids, hold, hmid, _⟩ := copy_facts h hcp hr
+  refine ⟨hold, ?_⟩
+  -- below the origin address there are only old objects
+  have hall : (flat st'.dst).filter (under (fpar ++ [l]))
+      = ((flat st'.dst).filter (fun e => decide (e.2.1 < k))).filter (under (fpar ++ [l])) := by
+    rw [List.filter_filter]
+    apply List.filter_congr
+    intro e he
+    cases hue : under (fpar ++ [l]) e with
+    | false => rfl
+    | true =>
+      by_cases hlt : e.2.1 < k
+      · simp [hlt]
+      · exfalso
+        cases hut : under (tpar ++ [l]) e with
+        | true =>
+          -- below both addresses: then one is a prefix of the other
+          obtain ⟨r1, hr1⟩ := isPrefixOf_iff.1 hue
+          obtain ⟨r2, hr2⟩ := isPrefixOf_iff.1 hut
+          have hcmp := List.prefix_or_prefix_of_prefix (l₃ := e.1) ⟨r1, hr1.symm⟩ ⟨r2, hr2.symm⟩
+          rcases hcmp with h1 | h1
+          · -- from <+: to: then from <+: tpar or from = to
+            obtain ⟨s, hs⟩ := h1
+            cases hsl : s.reverse with
+            | nil =>
+              simp at hsl; subst hsl; simp at hs
+              have := h.missing; rw [← hs, h.found] at this; cases this
+            | cons x xs =>
+              have : s = xs.reverse ++ [x] := by rw [← List.reverse_reverse s, hsl]; simp
+              subst this
+              rw [← List.append_assoc] at hs
+              have h2 : (fpar ++ [l]) <+: tpar := ⟨xs.reverse, List.append_inj_left' hs rfl⟩
+              have := h.outside
+              rw [List.isPrefixOf_iff_prefix.2 h2] at this; cases this
+          · -- to <+: from: the destination would exist
+            have hp : tpar ++ [l] ∈ paths t := by
+              obtain ⟨s, hs⟩ := h1
+              have hfp : fpar ++ [l] ∈ paths t := (mem_paths_iff h.su).2 (by rw [h.found]; rfl)
+              rw [← hs] at hfp
+              exact prefix_mem_paths h.su hfp
+            rw [mem_paths_iff h.su, h.missing] at hp; cases hp
+        | false =>
+          have h1 := (hmid e he hlt hut).1
+          have := prefix_trans' hue h1
+          rw [h.outside] at this; cases this
+  rw [hall, hold]
+  exact flat_filter_under h.found h.su
+
+example : PairHyp (cfgOf true false false false false false true) '/' exTree 5 [] [['b'], ['n']] ['a']
+    (.node 1 ['a'] [] [.node 2 ['x'] [(['k'], .int 7)] [], .node 3 ['y'] [] []]) where
+  plain := ⟨rfl, rfl, rfl, rfl⟩
+  mc := rfl
+  ml := rfl
+  dc := rfl
+  su := by decide +kernel
+  fresh := by decide +kernel
+  gf := by decide +kernel
+  gt := by decide +kernel
+  found := by decide +kernel
+  missing := by decide +kernel
+  outside := by decide +kernel
+
+example : call1 (cfgOf true false false false false false true) '/' exTree 5 [['a']] [['b'], ['n'], ['a']]
+    = .ok (st0 (.node 0 ['r'] [] [
+        .node 1 ['a'] [] [.node 2 ['x'] [(['k'], .int 7)] [], .node 3 ['y'] [] []],
+        .node 4 ['b'] [] [.node 5 ['n'] [] [.node 6 ['a'] [] [
+          .node 7 ['x'] [(['k'], .int 7)] [], .node 8 ['y'] [] []]]]]) 9) := by
+  decide +kernel
+
+/-! ## tree-to-tree: the source tree is untouched -/
+
+theorem loop_src {cfg st ps st'} (h : loop cfg st ps = .ok st') : st'.src = st.src := by
+  induction ps generalizing st with
+  | nil => simp [loop] at h; rw [h]
+  | cons p ps ih =>
+    simp only [loop] at h
+    cases hs : step cfg st p with
+    | error e => rw [hs] at h; simp at h
+    | ok st1 => rw [hs] at h; rw [ih h, (step_name hs).2]
+
+/-- For every flag combination and every pair list: a successful `copy_or_shift_logic` call
+returns with the source tree (`tree` when `to_tree` is another tree) exactly as it was. -/
+theorem source_untouched (cfg : Cfg) (st : St) (ps : List (Str × Option Str)) {st' : St}
+    (h : copyOrShift cfg st ps = .ok st') : st'.src = st.src := by
+  unfold copyOrShift at h
+  split at h
+  · exact loop_src h
+  · simp at h
+
+/-- tree-to-tree plain copy: the destination gets a fresh copy with the source subtree's shape,
+everything that was in the destination is untouched -/
+theorem t2t_copy {cfg : Cfg} {c : Char} (hc : cfg.Plain c) (hcp : cfg.copy = true)
+    (hmc : cfg.mergeChildren = false) (hml : cfg.mergeLeaves = false) (hdc : cfg.deleteChildren = false)
+    (s t : Tree) (k : Nat) (fpar tpar : List Str) (l : Str) (F : Tree)
+    (hu : SibUnique t) (hus : SibUnique s) (hk : ∀ e ∈ flat t, e.2.1 < k)
+    (hgf : GoodNames c (s.name :: fpar ++ [l])) (hgt : GoodNames c (t.name :: tpar ++ [l]))
+    (hF : getRel (fpar ++ [l]) s = some F) (hD : getRel (tpar ++ [l]) t = none) :
+    ∃ t' k', copyOrShift cfg ⟨some s, t, k⟩
+        [(pathStr c s.name (fpar ++ [l]), some (pathStr c t.name (tpar ++ [l])))] = .ok ⟨some s, t', k'⟩ ∧
+      shape ((flat t').filter (under (tpar ++ [l])))
+        = (shape (flat F)).map (fun x => (tpar ++ [l] ++ x.1, x.2)) ∧
+      (∀ e ∈ (flat t').filter (under (tpar ++ [l])), k ≤ e.2.1 ∧ e.2.1 < k') ∧
+      (flat t').filter (fun e => decide (e.2.1 < k)) = flat t := by
+  obtain ⟨t', k', hcall, _, _, h3, h4, h5, _, _⟩ :=
+    copy_core hc hcp hmc hml hdc (some s) t k fpar tpar l F hu hus hk hgf hgt hF hD (by simp)
+  exact ⟨t', k', hcall, h3, h4, h5⟩
+
+example : copyOrShift (cfgOf true false false false false false true)
+      ⟨some exTree, .node 5 ['q'] [] [.node 6 ['b'] [] []], 7⟩
+      [(['r','/','a'], some ['q','/','b','/','a'])]
+    = .ok ⟨some exTree, .node 5 ['q'] [] [.node 6 ['b'] [] [.node 7 ['a'] [] [
+        .node 8 ['x'] [(['k'], .int 7)] [], .node 9 ['y'] [] []]]], 10⟩ := by
+  decide +kernel
+
+/-! ## delete (`to_path = None`) -/
+
+/-- `shift_nodes(tree, [from], [None])`: the result is the old tree without the from-subtree —
+same entries (ids, paths, attributes) in the same order; no object is created. -/
+theorem delete_paths {cfg : Cfg} {c : Char} (hc : cfg.Plain c) (hcp : cfg.copy = false)
+    (hmc : cfg.mergeChildren = false) (hml : cfg.mergeLeaves = false) (hdc : cfg.deleteChildren = false)
+    (t : Tree) (k : Nat) (fp : List Str) (F : Tree) (hne : fp ≠ [])
+    (hu : SibUnique t) (hg : GoodNames c (t.name :: fp)) (hF : getRel fp t = some F) :
+    ∃ t', copyOrShift cfg (st0 t k) [(pathStr c t.name fp, none)] = .ok (st0 t' k) ∧
+      flat t' = (flat t).filter (fun e => !under fp e) ∧
+      (∀ q, q ∈ paths t' ↔ q ∈ paths t ∧ ¬ fp <+: q) := by
+  refine ⟨removeAt fp t, delete_step hc hcp hmc hml hdc t k fp F hg hF, flat_removeAt hne hu, ?_⟩
+  intro q
+  rw [mem_paths_removeAt hne hu]
+  constructor
+  · rintro ⟨h1, h2⟩
+    exact ⟨h1, fun hp => by rw [List.isPrefixOf_iff_prefix.2 hp] at h2; cases h2⟩
+  · rintro ⟨h1, h2⟩
+    refine ⟨h1, ?_⟩
+    cases hp : fp.isPrefixOf q with
+    | false => rfl
+    | true => exact absurd (List.isPrefixOf_iff_prefix.1 hp) h2
+
+example : copyOrShift (cfgOf false false false false false false true) (st0 exTree 5)
+      [(pathStr '/' ['r'] [['a'], ['x']], none)]
+    = .ok (st0 (.node 0 ['r'] [] [.node 1 ['a'] [] [.node 3 ['y'] [] []], .node 4 ['b'] [] []]) 5) := by
+  decide +kernel
+
+end C08
